@@ -54,6 +54,9 @@ def cases(draw, big_ok=False):
         "arm": draw(st.sampled_from(["threads", "threads", "threads", "threads", "procs"])),
         "trees": trees,
         "shared_state": draw(st.booleans()),
+        # what each writer does: stage+transfer a directory; index build->md5->save of its workspace;
+        # transfer from its own (pre-populated) cache into the shared store as a remote
+        "work": draw(st.sampled_from(["stage", "stage", "isave", "xfer"])),
         "hardlink": draw(st.sampled_from([False, False, True])),
         "schedule": draw(st.lists(st.integers(0, 3), min_size=0, max_size=120)),
         "delays": draw(st.lists(st.integers(0, 6), min_size=4, max_size=24)),
@@ -69,10 +72,26 @@ def writer_fn(case, d, i, shared_state=None):
     from dvc_data.hashfile.transfer import transfer
 
     def fn():
+        from dvc_data.hashfile.hash_info import HashInfo
+        from dvc_data.index.build import build as ibuild
+        from dvc_data.index.save import md5, save
+
         fs = LocalFileSystem()
         state = shared_state or State(root_dir=d, tmp_dir=os.path.join(d, "tmp"))
+        work = case.get("work", "stage")
         try:
             odb = LocalHashFileDB(fs, os.path.join(d, "store"), state=state)
+            if work == "isave":
+                idx = ibuild(os.path.join(d, f"wsroot{i}"), fs)
+                idx = md5(idx, state=state)
+                save(idx, odb=odb)
+                return idx[("data",)].hash_info.value, []
+            if work == "xfer":
+                cache = LocalHashFileDB(fs, os.path.join(d, f"cache{i}"), state=state)
+                with open(os.path.join(d, f"request{i}.txt"), encoding="utf-8") as f:
+                    ids = [ln.strip() for ln in f if ln.strip()]
+                res = transfer(cache, odb, {HashInfo("md5", x) for x in ids}, shallow=False)
+                return ids[0], sorted(h.value for h in res.failed)
             staging, _, obj = build(odb, os.path.join(d, f"ws{i}"), fs, "md5")
             res = transfer(staging, odb, {obj.hash_info}, shallow=False, hardlink=case["hardlink"])
             return obj.hash_info.value, sorted(h.value for h in res.failed)
@@ -81,6 +100,22 @@ def writer_fn(case, d, i, shared_state=None):
                 state.close()
 
     return fn
+
+
+def prepare_writer(case, d, i, tree):
+    """Materialise writer i's inputs (harness-side, before any scheduling). Returns {relpath: bytes}."""
+    from vd import ops
+
+    work = case.get("work", "stage")
+    if work == "isave":
+        return gen.materialise(tree, os.path.join(d, f"wsroot{i}", "data"))
+    flat = gen.materialise(tree, os.path.join(d, f"ws{i}"))
+    if work == "xfer":
+        cache = ops.make_odb("local", os.path.join(d, f"cache{i}"))
+        _, obj, _ = ops.stage_transfer(cache, os.path.join(d, f"ws{i}"))
+        with open(os.path.join(d, f"request{i}.txt"), "w", encoding="utf-8") as f:
+            f.write(obj.hash_info.value + "\n")
+    return flat
 
 
 _WARM = False
@@ -98,6 +133,10 @@ def warm_up(ctx):
         case = {"hardlink": True}
         gen.materialise({"a": "p:A", "c": "p:C"}, os.path.join(d, "ws1"))
         writer_fn(case, d, 1)()
+        prepare_writer({"work": "isave"}, d, 2, {"a": "p:A", "s": {"b": "p:B"}})
+        writer_fn({"work": "isave", "hardlink": False}, d, 2)()
+        prepare_writer({"work": "xfer"}, d, 3, {"a": "p:A", "s": {"b": "p:B"}})
+        writer_fn({"work": "xfer", "hardlink": False}, d, 3)()
     _WARM = True
 
 
@@ -192,7 +231,7 @@ def run_case(case, ctx):  # noqa: C901, PLR0912
         n = len(case["trees"])
         flats, mans = [], []
         for i, t in enumerate(case["trees"]):
-            flat = gen.materialise(t, os.path.join(d, f"ws{i}"))
+            flat = prepare_writer(case, d, i, t)
             flats.append(flat)
             mans.append(ref.tree_manifest(flat))
         viols = []
@@ -273,7 +312,7 @@ def run_case(case, ctx):  # noqa: C901, PLR0912
             nontrivial = share and switches >= 3
         else:
             nontrivial = share
-        cl = [f"arm={case['arm']}", f"writers={n}"]
+        cl = [f"arm={case['arm']}", f"writers={n}", f"work={case.get('work', 'stage')}"]
         if share:
             cl.append("shared-content")
         if same_dir:
